@@ -115,6 +115,7 @@ LOOP_LOCALS = {'current_result': 'Opt[SubResult]', 'ready_threads': 'List[Thread
                'last_layer_intermediate_output': 'Opt[Str]', 'previous_output': 'Opt[Any]'}
 
 RESUME = {
+    'merge': True,
     'property': ['C06'],
     'params': {'script_parts': 'Any', 'options': 'Rec[SchedOptions]', 'features': 'Any',
                'layers': 'List[Tuple[Str,Layer,Suite]]', 'failures': 'Any', 'errors': 'Any', 'skipped': 'Any', 'cwd': 'Any'},
